@@ -365,6 +365,68 @@ def ob_history(kind, depth):
               clause="the prior returns the density of the CURRENT field, precision / covariate coefficients and node heights after every history", funcs=FUNCS)
 
 
+def ob_json_variants():
+    """the plain / weighted / time-aware (rescaled or not) variants SELECTED THROUGH A JSON SPECIFICATION are the variants the keywords name:
+    an object loaded with from_json evaluates like the object constructed directly with the same variant (GMRF and GMRFGammaIntegrated)."""
+    def body():
+        import torchtree.distributions.gmrf as gm
+        import torchtree.distributions.gmrf_integrated as gi
+        from torchtree.core.parameter import Parameter
+        from torchtree.core.utils import process_object
+        from specs import treemodels
+        t64 = lambda v: torch.tensor(v, dtype=torch.float64)
+        names, tree, tips = ["A", "B", "C", "D"], ((0, 1), (2, 3)), [0.0, 0.5, 0.0, 1.0]
+        field = [0.3, -0.2, 1.1]
+        wts = [0.5, 2.0]
+        P = lambda i, v: {"id": i, "type": "Parameter", "tensor": v, "dtype": "torch.float64"}
+        bad, n = [], 0
+        for cls_name in ("GMRF", "GMRFGammaIntegrated"):
+            for variant in ("plain", "weights", "tree", "tree,rescale=False", "tree,rescale=True"):
+                tm, _ = treemodels.build_timetree(tree, names, tips, t64([1.2, 2.0, 3.0]))
+                dic = {"tree": tm}
+                spec = {"id": "g", "type": cls_name, "x": P("x", field)}
+                kw = {}
+                if cls_name == "GMRF":
+                    spec["precision"] = P("tau", [2.0])
+                else:
+                    spec.update(shape=1.5, rate=0.8)
+                if variant == "weights":
+                    spec["weights"] = P("w", wts)
+                    kw["weights"] = t64(wts)
+                if variant.startswith("tree"):
+                    spec["tree_model"] = "tree"
+                    kw["tree_model"] = tm
+                    if "rescale=" in variant:
+                        spec["rescale"] = variant.endswith("True")
+                        kw["rescale"] = variant.endswith("True")
+                try:
+                    loaded = process_object(spec, dic)
+                    got = loaded()
+                except Exception as e:
+                    bad.append("%s from JSON (%s) cannot be evaluated: %s: %s" % (cls_name, variant, type(e).__name__, str(e)[:100]))
+                    continue
+                if cls_name == "GMRF":
+                    direct = gm.GMRF("g2", Parameter("x2", t64(field)), Parameter("tau2", t64([2.0])), **kw)
+                else:
+                    direct = gi.GMRFGammaIntegrated("g2", Parameter("x2", t64(field)), 1.5, 0.8, **kw)
+                want = direct()
+                n += 1
+                if got.shape != want.shape or not torch.allclose(got, want, rtol=1e-12, atol=1e-12):
+                    bad.append("%s from JSON (%s) returns %s, the directly constructed %s variant returns %s" % (cls_name, variant, got.tolist(), variant, want.tolist()))
+        if bad:
+            raise Refuted("; ".join(bad[:3]), witness={"failures": bad}, replay={"kind": "custom", "contract": "C20", "func": "replay_json_variants", "args": {}}, confirmed=True)
+        return {"backend": "heap", "cases": n, "statement": "%d JSON specifications (plain / weights / tree_model x rescale) evaluate like the directly constructed variants" % n}
+    return Ob("C20.json_variants", "B", body, clause="the variant (plain, weighted, time-aware, rescaled) named in a JSON specification is the one evaluated", funcs=FUNCS)
+
+
+def replay_json_variants(args):
+    try:
+        ob_json_variants().fn()
+    except Refuted as e:
+        return False, e.detail
+    return True, "held"
+
+
 def replay_history(args):
     try:
         ob_history(args["kind"], args["depth"]).fn()
@@ -377,6 +439,7 @@ def obligations(tier, seed):
     obs = []
     for kind in HISTORY_KINDS:
         obs.append(ob_history(kind, 3 if tier == "quick" else 4))
+    obs.append(ob_json_variants())
 
     def add(name, factory, args, clause, **kw):
         kw.setdefault("max_paths", 20000)
